@@ -131,7 +131,13 @@ func genCfg(t *rapid.T) cfg {
 			c.Commands = append(c.Commands, []string{"", "{env.VERIF_C16_UNSET}"}[rapid.IntRange(0, 1).Draw(t, "emptySpelling")])
 		}
 	}
-	switch rapid.IntRange(0, 5).Draw(t, "credKind") {
+	switch rapid.IntRange(0, 7).Draw(t, "credKind") {
+	case 6:
+		// names and passwords are compared as configured: surrounding white space is part of them
+		c.Creds = map[string]string{" carol": "pw", "dave": " s3cret ", "erin": "hunter2\n"}
+	case 7:
+		// ... and so is a colon: user name and password are two separate strings
+		c.Creds = map[string]string{"ops:backup": "s3cret", "alice": "pa:ss"}
 	case 0, 1:
 	case 2:
 		c.Creds = map[string]string{"bob": "secret"}
@@ -169,7 +175,34 @@ func genSession(t *rapid.T, c cfg) session {
 	passes := []string{"secret", "", "envpass", "nopass", "x", "wrong", "{env.VERIF_C16_PASS}"}
 	s.User = users[rapid.IntRange(0, len(users)-1).Draw(t, "user")]
 	s.Pass = passes[rapid.IntRange(0, len(passes)-1).Draw(t, "pass")]
-	switch rapid.IntRange(0, 3).Draw(t, "pairKind") {
+	switch rapid.IntRange(0, 4).Draw(t, "pairKind") {
+	case 4:
+		// something close to a configured entry: white space trimmed, or the same characters split elsewhere
+		if len(c.Creds) > 0 {
+			us := make([]string, 0, len(c.Creds))
+			for u := range c.Creds {
+				us = append(us, u)
+			}
+			sort.Strings(us)
+			u := us[rapid.IntRange(0, len(us)-1).Draw(t, "nearUser")]
+			ru, rp := resolve(u), resolve(c.Creds[u])
+			if rapid.Bool().Draw(t, "trimmed") {
+				s.User, s.Pass = strings.TrimSpace(ru), strings.TrimSpace(rp)
+			} else if joined := ru + ":" + rp; strings.Count(joined, ":") > 1 {
+				var cuts []int
+				for i, ch := range joined {
+					if ch == ':' && i != len(ru) {
+						cuts = append(cuts, i)
+					}
+				}
+				at := cuts[rapid.IntRange(0, len(cuts)-1).Draw(t, "splitAt")]
+				s.User, s.Pass = joined[:at], joined[at+1:]
+			}
+			s.Auth = true
+			if !bytes.Contains(s.Methods, []byte{2}) {
+				s.Methods = append(s.Methods, 2)
+			}
+		}
 	case 0:
 		// a pair the configuration accepts
 		if ps := c.pairs(); len(ps) > 0 {
